@@ -100,3 +100,48 @@ Lemma P_running_mean_never_negative : forall (errf : example -> f64) (step : nat
 Proof.
   intros errf step d H. exact (proj1 (soe_loop_inv errf step d 0%nat _ H soe_inv_init)).
 Qed.
+
+(* ---- round 4: lexical_cast alternatives and the exception path ---------- *)
+Lemma P_lexical_cast_alternatives : forall (d : f64) (z : Z) (s : list Z) (v : f64) (p : pout),
+  lex_double (PDouble d) = d /\ lex_double (PInt z) = F64.of_Z z /\
+  lex_double (PString s (Some v)) = v /\ lex_double PVoid = F64.zero /\
+  (lex_throws p = true <-> exists s', p = PString s' None).
+Proof.
+  intros d z s v p. repeat split; try reflexivity.
+  - intro H. destruct p as [| | |s' [w|]]; try discriminate H. exists s'. reflexivity.
+  - intros [s' ->]. reflexivity.
+Qed.
+
+Lemma P_no_exception_same_as_total : forall throws errf step d,
+  (forall e, In e d -> throws e = false) ->
+  sum_of_errors_impl_x throws errf step d =
+  (fst (sum_of_errors_impl errf step d), Some (snd (sum_of_errors_impl errf step d))).
+Proof.
+  intros throws errf step d H. unfold sum_of_errors_impl_x, sum_of_errors_impl.
+  rewrite (soe_loop_x_no_throw throws errf step d 0%nat _ H).
+  destruct (soe_loop errf step 0 d (F64.zero, F64.zero)) as [d' st]. reflexivity.
+Qed.
+
+Lemma P_exception_frame : forall throws errf d,
+  fst (sum_of_errors_impl_x throws errf 1 d) = frame_x throws (fun e => negb (issmall (errf e))) d /\
+  (snd (sum_of_errors_impl_x throws errf 1 d) = None <-> existsb throws d = true).
+Proof.
+  intros throws errf d. unfold sum_of_errors_impl_x.
+  destruct (soe_loop_x_step1 throws errf d (F64.zero, F64.zero)) as [A B].
+  destruct (soe_loop_x throws errf 1 0 d (F64.zero, F64.zero)) as [d' [st|]]; cbn [fst snd] in *.
+  - split; [exact A|]. split; [discriminate|]. intro E. apply B in E. discriminate E.
+  - split; [exact A|]. split; [intros _; apply B; reflexivity|reflexivity].
+Qed.
+
+Lemma P_exception_frame_any_step : forall throws errf step d,
+  Forall2 (fun e e' => e' = e \/ (negb (issmall (errf e)) = true /\ e' = bump e))
+          d (fst (sum_of_errors_impl_x throws errf step d)) /\
+  (snd (sum_of_errors_impl_x throws errf step d) = None -> exists e, In e d /\ throws e = true).
+Proof.
+  intros throws errf step d. unfold sum_of_errors_impl_x.
+  pose proof (soe_loop_x_frame throws errf step d 0%nat (F64.zero, F64.zero)) as F.
+  pose proof (soe_loop_x_throw_witness throws errf step d 0%nat (F64.zero, F64.zero)) as W.
+  destruct (soe_loop_x throws errf step 0 d (F64.zero, F64.zero)) as [d' [st|]]; cbn [fst snd] in *.
+  - split; [exact F|discriminate].
+  - split; [exact F|]. intros _. apply W. reflexivity.
+Qed.
